@@ -10,7 +10,8 @@ RULE = ("TLC explores every behaviour of the PushRuleset state machine for one r
         "real Ruleset built in that state (override; underride and content for the plain kind). A pair is non-trivial when "
         "the operation is an insert with an anchor, a re-insert of an existing rule, or any call the spec answers with an "
         "error; distinct = distinct emitted (state, op) pairs. Recorded random walks over all five kinds are validated by "
-        "Trace_C13 step by step.")
+        "Trace_C13 step by step; in the walks that start from the empty ruleset the rule get_match selects for a probe event after "
+        "every edit must be the first enabled matching rule of the lists as the specification has them (evaluation after edits).")
 
 
 def apalache_inductive():
@@ -81,7 +82,10 @@ def run(rep, tier):
             if q.get("kind") == r["kind"]:
                 prev = q["post"]
                 break
-        cls = "push/trace/%s/%s" % (r["op"], "panic" if r["res"] == "panic" else "unexplained")
+        if r["ev"] == "reset":
+            cls = "push/trace/evaluation-of-a-fresh-ruleset"
+        else:
+            cls = "push/trace/%s/%s" % (r["op"], "panic" if r["res"] == "panic" else "unexplained-or-evaluation-differs")
         rep.violation(cls, {"pre": prev, "record": r})
     rep.part("trace", records=len(recs), runs=runs, mismatches=len(bad))
     rep.sample({"trace_record": recs[min(7, len(recs) - 1)]})
